@@ -18,6 +18,8 @@ namespace zoo {
 
    const std::vector<Row>& rows() { return table(); }
 
+   void guarded(Ctx& c, std::string& out, const char* name, const std::function<std::string()>& f) { field(c, out, name, f); }
+
    void build_all(Ctx& c)
    {
       for (auto& r : table()) {
@@ -61,6 +63,7 @@ namespace zoo {
       namer.names.insert({ static_cast<const void*>(e.node), "k" + std::to_string(entries.size()) + "." + e.iface });
       entries.push_back(std::move(e));
       if (rep) rep->count("transitions");
+      if (on_register) on_register(*this, entries.size() - 1);
       return entries.back();
    }
 
@@ -75,6 +78,7 @@ namespace zoo {
       namer.names.insert({ static_cast<const void*>(&a), "a" + std::to_string(entries.size()) + "." + iface });
       entries.push_back(std::move(e));
       if (rep) rep->count("transitions");
+      if (on_register) on_register(*this, entries.size() - 1);
       return entries.back();
    }
 
